@@ -180,7 +180,7 @@ theorem refConstruct_nodes (f : List Nat) (hsum : f.sum + 1 < 2147483648) :
     List.sum_cons, List.sum_nil]
   have : (List.map ((fun x => x.frequency) ∘ fun (p : Nat × Nat) => (⟨p.1, p.2⟩ : Freq)) f.zipIdx) = f := by
     have := List.zipIdx_map_fst 0 f
-    simpa [Function.comp_def] using this
+    simp [Function.comp_def]
   rw [this]
   omega
 
@@ -239,5 +239,237 @@ theorem fromFrequencies_eq_refConstruct (f : List Nat) (t : Table) (h : fromFreq
       rfl
     · simp only [hleaf, if_false]
       rw [hnodes, hsame.2 i (by omega)]
+
+/-! ### D16b in the model: an entry ≥ 2^31 gives a different tree -/
+
+theorem toTable_node_inner (r : RefTree) (i : Nat) (hi : i < r.nodes.size) (h : ¬ i < NUM_SYMBOLS) :
+    node r.toTable i = node r.nodes i := by
+  simp [node, RefTree.toTable, Array.getD_eq_getD_getElem?, hi, h]
+
+theorem toTable_size (r : RefTree) : r.toTable.size = r.nodes.size := by
+  simp [RefTree.toTable]
+
+theorem buildTree_preserve (fuel : Nat) : ∀ (fs : List Freq) (nodes : Table) (i : Nat),
+    i < nodes.size → node (buildTree fuel fs nodes) i = node nodes i := by
+  induction fuel with
+  | zero => intro fs nodes i _; rfl
+  | succ f ih =>
+    intro fs nodes i hi
+    rw [buildTree]
+    split
+    · rfl
+    · split
+      · next f1 f2 rest _ =>
+        rw [ih _ _ i (by simp only [Array.size_push]; omega), node_push]
+        have : i ≠ nodes.size := by omega
+        simp only [this, if_false]
+      · rfl
+
+theorem buildTreeI_preserve (fuel : Nat) : ∀ (fs : List FreqI) (nodes : Table) (i : Nat),
+    i < nodes.size → node (buildTreeI fuel fs nodes) i = node nodes i := by
+  induction fuel with
+  | zero => intro fs nodes i _; rfl
+  | succ f ih =>
+    intro fs nodes i hi
+    rw [buildTreeI]
+    split
+    · rfl
+    · split
+      · next f1 f2 rest _ =>
+        rw [ih _ _ i (by simp only [Array.size_push]; omega), node_push]
+        have : i ≠ nodes.size := by omega
+        simp only [this, if_false]
+      · rfl
+
+theorem buildTreeI_step (f : Nat) (fs : List FreqI) (nodes : Table) (f1 f2 : FreqI)
+    (restRev : List FreqI) (hlen : ¬ fs.length ≤ 1)
+    (hrev : (sortDescI fs).reverse = f1 :: f2 :: restRev) :
+    buildTreeI (f + 1) fs nodes =
+      buildTreeI f (restRev.reverse ++ [⟨addI32 f1.frequency f2.frequency, nodes.size⟩])
+        (nodes.push (f1.nodeIdx, f2.nodeIdx)) := by
+  rw [buildTreeI]
+  simp only [hlen, if_false, hrev]
+
+/-- the node created by the first merge -/
+theorem buildTree_first (fuel : Nat) (fs : List Freq) (nodes : Table) (a b : Freq)
+    (hlen : ¬ fs.length ≤ 1) (h2 : (sortDesc fs).reverse.take 2 = [a, b]) :
+    node (buildTree (fuel + 1) fs nodes) nodes.size = (a.nodeIdx, b.nodeIdx) := by
+  have hrev : (sortDesc fs).reverse = a :: b :: (sortDesc fs).reverse.drop 2 := by
+    have := List.take_append_drop 2 (sortDesc fs).reverse
+    rw [h2] at this
+    exact this.symm
+  rw [buildTree_step fuel fs nodes a b _ hlen hrev,
+    buildTree_preserve _ _ _ nodes.size (by simp), node_push]
+  simp
+
+theorem buildTreeI_first (fuel : Nat) (fs : List FreqI) (nodes : Table) (a b : FreqI)
+    (hlen : ¬ fs.length ≤ 1) (h2 : (sortDescI fs).reverse.take 2 = [a, b]) :
+    node (buildTreeI (fuel + 1) fs nodes) nodes.size = (a.nodeIdx, b.nodeIdx) := by
+  have hrev : (sortDescI fs).reverse = a :: b :: (sortDescI fs).reverse.drop 2 := by
+    have := List.take_append_drop 2 (sortDescI fs).reverse
+    rw [h2] at this
+    exact this.symm
+  rw [buildTreeI_step fuel fs nodes a b _ hlen hrev,
+    buildTreeI_preserve _ _ _ nodes.size (by simp), node_push]
+  simp
+
+/-- the D16b witness: symbol 0 has frequency `2^32 - 1` (−1 for the C++), every other byte 2 -/
+def d16bFreqs : List Nat := 4294967295 :: List.replicate 255 2
+
+/-! the two sorts, symbolically (the kernel needs minutes to evaluate a 257-element sort) -/
+
+theorem insertDesc_ge (x : Freq) (acc : List Freq) (h : ∀ y ∈ acc, y.frequency ≥ x.frequency) :
+    insertDesc x acc = acc ++ [x] := by
+  induction acc with
+  | nil => rfl
+  | cons y ys ih =>
+    have hy := h y (by simp)
+    simp only [insertDesc, hy, if_true, List.cons_append]
+    rw [ih (fun z hz => h z (by simp [hz]))]
+
+theorem foldl_insert_const (c : Nat) (l : List Freq) (hl : ∀ x ∈ l, x.frequency = c) :
+    ∀ acc : List Freq, (∀ y ∈ acc, y.frequency ≥ c) →
+      l.foldl (fun acc x => insertDesc x acc) acc = acc ++ l := by
+  induction l with
+  | nil => intro acc _; simp
+  | cons x l ih =>
+    intro acc hacc
+    have hx := hl x (by simp)
+    simp only [List.foldl_cons]
+    rw [insertDesc_ge x acc (fun y hy => by rw [hx]; exact hacc y hy),
+      ih (fun z hz => hl z (by simp [hz])) _ (by
+        intro y hy
+        simp only [List.mem_append, List.mem_singleton] at hy
+        rcases hy with hy | rfl
+        · exact hacc y hy
+        · omega)]
+    simp
+
+theorem insertDescI_mid (x y : FreqI) (A : List FreqI) (hA : ∀ a ∈ A, a.frequency ≥ x.frequency)
+    (hy : ¬ y.frequency ≥ x.frequency) : insertDescI x (A ++ [y]) = A ++ [x, y] := by
+  induction A with
+  | nil => simp [insertDescI, hy]
+  | cons a A ih =>
+    have ha := hA a (by simp)
+    simp only [List.cons_append, insertDescI, ha, if_true]
+    rw [ih (fun z hz => hA z (by simp [hz]))]
+
+theorem foldl_insertI_const (c : Int) (y : FreqI) (hy : ¬ y.frequency ≥ c) (l : List FreqI)
+    (hl : ∀ x ∈ l, x.frequency = c) :
+    ∀ A : List FreqI, (∀ a ∈ A, a.frequency ≥ c) →
+      l.foldl (fun acc x => insertDescI x acc) (A ++ [y]) = A ++ l ++ [y] := by
+  induction l with
+  | nil => intro A _; simp
+  | cons x l ih =>
+    intro A hA
+    have hx := hl x (by simp)
+    simp only [List.foldl_cons]
+    rw [insertDescI_mid x y A (fun a ha => by rw [hx]; exact hA a ha) (by rw [hx]; exact hy)]
+    have := ih (fun z hz => hl z (by simp [hz])) (A ++ [x]) (by
+      intro a ha
+      simp only [List.mem_append, List.mem_singleton] at ha
+      rcases ha with ha | rfl
+      · exact hA a ha
+      · omega)
+    simp only [List.append_assoc, List.cons_append, List.nil_append] at this ⊢
+    exact this
+
+def d16bTwos : List Nat := List.range' 1 255
+
+theorem d16b_rust_list : (d16bFreqs.zipIdx.map fun (p : Nat × Nat) => (⟨p.1, p.2⟩ : Freq))
+    = ⟨4294967295, 0⟩ :: d16bTwos.map (fun i => (⟨2, i⟩ : Freq)) := by decide +kernel
+
+theorem d16b_ref_list : (d16bFreqs.zipIdx.map fun (p : Nat × Nat) => (⟨toI32 p.1, p.2⟩ : FreqI))
+    = ⟨-1, 0⟩ :: d16bTwos.map (fun i => (⟨2, i⟩ : FreqI)) := by decide +kernel
+
+theorem d16bTwos_split : d16bTwos = List.range' 1 254 ++ [255] := by
+  show List.range' 1 (254 + 1) = _
+  rw [List.range'_concat]
+
+theorem d16b_rust_sorted :
+    (sortDesc ((d16bFreqs.zipIdx.map fun (p : Nat × Nat) => (⟨p.1, p.2⟩ : Freq))
+      ++ [(⟨1, EOF⟩ : Freq)])).reverse.take 2 = [⟨1, EOF⟩, ⟨2, 255⟩] := by
+  rw [d16b_rust_list]
+  have hs : sortDesc (⟨4294967295, 0⟩ :: d16bTwos.map (fun i => (⟨2, i⟩ : Freq)) ++ [(⟨1, EOF⟩ : Freq)])
+      = ⟨4294967295, 0⟩ :: d16bTwos.map (fun i => (⟨2, i⟩ : Freq)) ++ [(⟨1, EOF⟩ : Freq)] := by
+    simp only [sortDesc, List.cons_append, List.foldl_cons, List.foldl_append, List.foldl_nil, insertDesc]
+    rw [foldl_insert_const 2 _ (by intro x hx; simp only [List.mem_map] at hx; obtain ⟨i, _, rfl⟩ := hx; rfl)
+      [⟨4294967295, 0⟩] (by intro y hy; simp only [List.mem_singleton] at hy; subst hy; decide)]
+    rw [insertDesc_ge]
+    · simp
+    · intro y hy
+      simp only [List.cons_append, List.nil_append, List.mem_cons, List.mem_map] at hy
+      rcases hy with rfl | ⟨i, _, rfl⟩
+      · decide
+      · show (2 : Nat) ≥ 1; decide
+  rw [hs, d16bTwos_split]
+  simp
+
+theorem d16b_ref_sorted :
+    (sortDescI ((d16bFreqs.zipIdx.map fun (p : Nat × Nat) => (⟨toI32 p.1, p.2⟩ : FreqI))
+      ++ [(⟨1, EOF⟩ : FreqI)])).reverse.take 2 = [⟨-1, 0⟩, ⟨1, EOF⟩] := by
+  rw [d16b_ref_list]
+  have hs : sortDescI (⟨-1, 0⟩ :: d16bTwos.map (fun i => (⟨2, i⟩ : FreqI)) ++ [(⟨1, EOF⟩ : FreqI)])
+      = d16bTwos.map (fun i => (⟨2, i⟩ : FreqI)) ++ [⟨1, EOF⟩, ⟨-1, 0⟩] := by
+    simp only [sortDescI, List.cons_append, List.foldl_cons, List.foldl_append, List.foldl_nil, insertDescI]
+    have := foldl_insertI_const 2 ⟨-1, 0⟩ (by decide) (d16bTwos.map (fun i => (⟨2, i⟩ : FreqI)))
+      (by intro x hx; simp only [List.mem_map] at hx; obtain ⟨i, _, rfl⟩ := hx; rfl) [] (by simp)
+    simp only [List.nil_append] at this
+    rw [this]
+    exact insertDescI_mid ⟨1, EOF⟩ ⟨-1, 0⟩ _
+      (by intro a ha; simp only [List.mem_map] at ha; obtain ⟨i, _, rfl⟩ := ha; show (2 : Int) ≥ 1; decide) (by decide)
+  rw [hs]
+  simp
+
+/-- the first merge: the Rust joins EOF with byte 255 (its two rarest), the C++ joins byte 0 (−1) with
+EOF -/
+theorem d16b_first_merge :
+    node (rustForest d16bFreqs) 257 = (256, 255)
+      ∧ node (refConstruct d16bFreqs).nodes 257 = (0, 256) := by
+  constructor
+  · have hl : ((d16bFreqs.zipIdx.map fun (p : Nat × Nat) => (⟨p.1, p.2⟩ : Freq))
+        ++ [(⟨1, EOF⟩ : Freq)]).length = 256 + 1 := by
+      simp only [List.length_append, List.length_map, List.length_zipIdx, d16bFreqs, List.length_cons,
+        List.length_replicate, List.length_nil]
+    have := buildTree_first 256 _ (Array.replicate NUM_SYMBOLS ((65535, 65535) : Nat × Nat)) _ _
+      (by rw [hl]; decide) d16b_rust_sorted
+    have hsz0 : (Array.replicate NUM_SYMBOLS ((65535, 65535) : Nat × Nat)).size = 257 :=
+      Array.size_replicate ..
+    rw [hsz0] at this
+    simp only [rustForest, hl]
+    exact this
+  · simp only [refConstruct]
+    generalize hfs0 : List.map _ d16bFreqs.zipIdx = fsI
+    have hfsI : fsI = d16bFreqs.zipIdx.map fun (p : Nat × Nat) => (⟨toI32 p.1, p.2⟩ : FreqI) := by
+      rw [← hfs0]
+    subst hfsI
+    have hl : ((d16bFreqs.zipIdx.map fun (p : Nat × Nat) => (⟨toI32 p.1, p.2⟩ : FreqI))
+        ++ [(⟨1, EOF⟩ : FreqI)]).length = 256 + 1 := by
+      simp only [List.length_append, List.length_map, List.length_zipIdx, d16bFreqs, List.length_cons,
+        List.length_replicate, List.length_nil]
+    have := buildTreeI_first 256 _ (Array.replicate NUM_SYMBOLS ((65535, 65535) : Nat × Nat)) _ _
+      (by rw [hl]; decide) d16b_ref_sorted
+    have hsz0 : (Array.replicate NUM_SYMBOLS ((65535, 65535) : Nat × Nat)).size = 257 :=
+      Array.size_replicate ..
+    rw [hsz0] at this
+    rw [hl]
+    exact this
+
+/-- **D16b witness**: whatever table `from_frequencies` returns for this vector, it is not the
+reference's tree. -/
+theorem d16b_witness (t : Table) (h : fromFrequencies d16bFreqs = .ok t) :
+    (refConstruct d16bFreqs).toTable ≠ t := by
+  intro heq
+  obtain ⟨_, hdfs⟩ := fromFrequencies_ok_forest d16bFreqs t h
+  obtain ⟨hs1, hs2⟩ := dfs_inner _ _ _ _ _ _ hdfs
+  have hsz : t.size = NUM_NODES := (fromFrequencies_inner d16bFreqs t h).1
+  have hrs : (refConstruct d16bFreqs).nodes.size = 513 := by
+    have := congrArg Array.size heq
+    rw [toTable_size, hsz] at this
+    exact this
+  have h257 : node (refConstruct d16bFreqs).toTable 257 = node (refConstruct d16bFreqs).nodes 257 :=
+    toTable_node_inner _ 257 (by rw [hrs]; decide) (by decide)
+  rw [heq, hs2 257 (by decide), d16b_first_merge.1, d16b_first_merge.2] at h257
+  cases h257
 
 end Tw.Huffman
